@@ -431,8 +431,6 @@ def judge_sm(rep, case, res, replies):
                 kind = ("data function" if name in [d["name"] for d in case["data"]] else
                         "derivative" if name.startswith("d") and "." in name else "argument")
                 finding = None
-                if kind == "data function" and case["static"] and case["interval"] is not None:
-                    finding = "static_resample_stale_data"
                 rep.fail(f"{cls}: forward call {k}: {kind} '{name}' seen by the residual is not its value on the rows "
                          f"the sampler produced for this call", case,
                          detail=dict(call=k, name=name, got=[[str(v) for v in r] for r in expand(got, n)][:4],
